@@ -128,6 +128,9 @@ type _refHolder struct {
 	destinations []reflect.Value
 
 	value reflect.Value
+
+	// all elements of the list have been read: value is final
+	complete bool
 }
 
 var _refHolderType = reflect.TypeOf(_refHolder{})
